@@ -495,7 +495,6 @@ class DatasetProcessor:
         logger.info("Processing experiment " + sample.prefix)
         logger.info("Experiment has " + proper_plural_form("BAM file", len(sample.file_list)) + ": " + ", ".join(
             map(lambda x: x[0], sample.file_list)))
-        self.args.use_technical_replicas = self.args.read_group == "file_name" and len(sample.file_list) > 1
 
         self.all_read_groups = set()
         self.alignment_stat_counter = EnumStats()
@@ -528,8 +527,9 @@ class DatasetProcessor:
         if self.args.read_assignments:
             # no alignment files in this mode, the number of unaligned reads comes with the saved assignments
             self.alignment_stat_counter.add(AlignmentType.unaligned, unaligned_reads)
-            # ... and so do the file labels of the run that saved them (one read group per input file)
-            self.args.use_technical_replicas = self.args.read_group == "file_name" and len(self.all_read_groups) > 1
+        # technical replicas = files that contributed reads (one read group per input file); taken from the saved
+        # assignments, so that a run restarted from them (--read_assignments) decides as the run that saved them
+        self.args.use_technical_replicas = self.args.read_group == "file_name" and len(self.all_read_groups) > 1
 
         polya_fraction = polya_found / total_assignments if total_assignments > 0 else 0.0
         logger.info("Total assignments used for analysis: %d, polyA tail detected in %d (%.1f%%)" %
